@@ -310,16 +310,7 @@ func execFormat(spec string) (res engine.Result) {
 		return
 	}
 	res.Hit("faults")
-	// attribute the fault to one directive when that directive alone fails the same way
-	who := strings.Join(names, "+")
-	if 1 < len(dirs) {
-		for i, d := range dirs {
-			if o1 := runFormat(d, args); realClassifier.classify(o1) == fc && o1.site == o.site {
-				who = names[i]
-				break
-			}
-		}
-	}
-	res.Fail(fmt.Sprintf("format %s fault=%s at=%s", who, fc, o.site), what+" => "+o.describe())
+	// the Go function that faulted names the directive handler: no directive names in the signature
+	res.Fail(fmt.Sprintf("format fault=%s at=%s", fc, o.site), what+" => "+o.describe())
 	return
 }
